@@ -38,6 +38,7 @@ type World struct {
 	objID    int
 	logs     []string
 	hashCount int
+	unixCache map[int]value
 }
 
 func newWorld(i *interpreter) *World {
